@@ -173,15 +173,15 @@ func evalerTypeOfCtor(p *Prog, ctor *types.Func) string {
 type foldCase struct {
 	kind       string
 	pos        token.Pos
-	helper     string       // tryFold / tryFoldBinary / tryFoldUnary / identity
-	inputs     []string     // fields of v given as children, in order ("Args..." for a copied slice)
-	ctors      []*types.Func // constructors returned by mkEval (all return sites)
+	helper     string          // tryFold / tryFoldBinary / tryFoldUnary / identity
+	inputs     []string        // fields of v given as children, in order ("Args..." for a copied slice)
+	ctors      []*types.Func   // constructors returned by mkEval (all return sites)
 	guarded    map[string]bool // constructor name -> constructed only under a failed EntityUID assertion
-	rebuilt    string       // node kind rebuilt by mkNode
-	rebuiltPos map[string]int // field -> index into nodes
-	copied     []string     // non-node fields of v read in mkNode
-	evalCopied []string     // non-node fields of v read in mkEval
-	literalArg bool         // operands of the constructor are newLiteralEval(values[i]) in order
+	rebuilt    string          // node kind rebuilt by mkNode
+	rebuiltPos map[string]int  // field -> index into nodes
+	copied     []string        // non-node fields of v read in mkNode
+	evalCopied []string        // non-node fields of v read in mkEval
+	literalArg bool            // operands of the constructor are newLiteralEval(values[i]) in order
 }
 
 func runC04(p *Prog, r *Report) {
